@@ -1025,6 +1025,14 @@ class DataSourceMetadataSource(MetadataSource):
             fn_with_arg_hash, key, stored_with_data
         )
         log.debug("Writing metadata to key {}...".format(metadata_key))
+        # The same metadata key may have been written the other way before (plain vs.
+        # stored with the data): drop that marker so reads see this write
+        self.data_source.delete_all_versions(
+            DataSourceMetadataSource._get_metadata_key(
+                fn_with_arg_hash, key, not stored_with_data
+            ),
+            False,
+        )
         self.data_source.output(
             metadata_key, io.BytesIO(bytes() if stored_with_data else value)
         )
